@@ -49,6 +49,50 @@ func c27Child() {
 				}
 			}
 		}
+	case "unobserved-flush-faults":
+		// batches ingested without a done channel: nobody is told when their flush fails
+		for _, fail := range []string{"CreateFile", "Write", "Close", "Update"} {
+			for _, mode := range []string{"threshold", "stop-drain", "stop-deadline"} {
+				data, meta := hstore.NewMemData(), hstore.NewMemMeta()
+				block := make(chan struct{})
+				h := &hstore.Hook{Enter: func(op, ptr string, n int) error {
+					if op == fail {
+						if mode == "stop-deadline" {
+							<-block
+							return nil
+						}
+						return fmt.Errorf("injected: %s failed", op)
+					}
+					return nil
+				}}
+				data.Hook, meta.Hook = h, h
+				cfg := quietConfig()
+				cfg.IngestBufferSize = 2
+				if mode == "threshold" {
+					cfg.MaxBufferedRows = 2
+				}
+				if mode == "stop-deadline" {
+					cfg.MaxBufferedRows = 1
+				}
+				eng, err := bs.NewBloomSearchEngine(cfg, meta, data)
+				if err != nil {
+					os.Exit(3)
+				}
+				eng.Start()
+				for i := 0; i < 4; i++ {
+					ctx, cancel := context.WithTimeout(context.Background(), 50*time.Millisecond)
+					eng.IngestRows(ctx, []map[string]any{{"i": i}}, nil)
+					cancel()
+				}
+				time.Sleep(20 * time.Millisecond)
+				ctx, cancel := context.WithTimeout(context.Background(), 150*time.Millisecond)
+				eng.Stop(ctx)
+				cancel()
+				close(block)
+				time.Sleep(30 * time.Millisecond)
+				runs++
+			}
+		}
 	case "handle-close-faults":
 		// closing a read handle fails (every k-th close, k = 1..4, and every close)
 		cfg := quietConfig()
@@ -234,12 +278,12 @@ func init() {
 	modes["C27"] = ModeSpec{
 		Cases: func(tier string) []Case {
 			var cs []Case
-			for _, s := range []string{"flush-faults", "merge-faults", "flush-fault-pairs", "merge-fault-pairs", "query-faults", "handle-close-faults", "corrupt-files", "missing-filters", "stop-deadline", "lifecycle"} {
+			for _, s := range []string{"flush-faults", "merge-faults", "flush-fault-pairs", "merge-fault-pairs", "query-faults", "handle-close-faults", "unobserved-flush-faults", "corrupt-files", "missing-filters", "stop-deadline", "lifecycle"} {
 				s := s
 				cs = append(cs, Case{ID: s, Run: func() CaseResult { return c27Parent(s) }})
 			}
 			return cs
 		},
-		Rule: "ten scenario groups (read handles whose Close fails during queries and merges, every single-fault flush run, every single-fault merge run, every ordered pair of failing store calls in a flush history and in a merge, a failure at every DataStore call position of 10 queries over two layouts, truncations/extensions/splices and CRC-consistent framing corruptions queried in both flows, external files with absent filters, Stop deadlines against stores wedged at each call kind, a plain lifecycle incl. rejected batches and an invalid regex) each run in a child process with Logger nil whose descriptors 1 and 2 are regular files; both files must stay empty",
+		Rule: "eleven scenario groups (flush failures and Stop deadlines for batches ingested without a done channel, read handles whose Close fails during queries and merges, every single-fault flush run, every single-fault merge run, every ordered pair of failing store calls in a flush history and in a merge, a failure at every DataStore call position of 10 queries over two layouts, truncations/extensions/splices and CRC-consistent framing corruptions queried in both flows, external files with absent filters, Stop deadlines against stores wedged at each call kind, a plain lifecycle incl. rejected batches and an invalid regex) each run in a child process with Logger nil whose descriptors 1 and 2 are regular files; both files must stay empty",
 	}
 }
